@@ -16,7 +16,7 @@ use fvm_shared::bigint::BigInt;
 use fvm_shared::econ::TokenAmount;
 use fvm_shared::randomness::Randomness;
 use fvm_shared::sector::{PoStProof, RegisteredPoStProof, RegisteredSealProof};
-use num_traits::Zero;
+use num_traits::{Signed, Zero};
 use proptest::prelude::*;
 use serde::{Deserialize, Serialize};
 use std::collections::{BTreeMap, BTreeSet};
@@ -69,6 +69,31 @@ pub enum Op {
     PostNext { m: u8, into: u8, skip: Vec<u16>, bad_proof: bool, partial: bool },
     /// a fault injected into the k-th send of the next message: (ordinal fraction, abort?)
     InjectFault { ordinal: u16, syscall: bool },
+    /// a fault injected into a send below a cron callback of one of the next ticks (the first tick that makes enough sends)
+    TickFault { ordinal: u16, syscall: bool },
+    /// macro: onboard enough sectors at once (94 + n) that the assignment has to put several partitions into one deadline
+    Bulk { m: u8, n: u8, life_days: u16 },
+    /// macro: a long stretch of chain time (days), with (post) or without a Window PoSt for every deadline of miner m that holds sectors
+    Long { m: u8, days: u8, post: bool },
+    /// the wrapped operation with a failure injected into one of its nested sends
+    WithFault { ordinal: u16, syscall: bool, op: Box<Op> },
+    /// macro: dispute a PoSt the harness saw accepted (chosen by `pick`), after its deadline closed (rel: epochs after the close, -1 = before)
+    DisputeRecent { pick: u16, rel: i16, index: u8 },
+    /// macro: a PoSt with an invalid proof for the next deadline with sectors, then a dispute after the deadline closed
+    BadPostDispute { m: u8, into: u8, rel: i16 },
+    /// the verified client allocates datacap to miner m: piece sizes sector_size >> k, terms and expiry relative to the policy limits
+    Allocate { m: u8, sizes: Vec<u8>, term_min_extra_days: u16, term_extra_days: u16, exp_days: u8 },
+    /// pre-commit one sector of miner m whose content is planned from open allocations (picks) plus an optional unverified filler piece
+    PreCommitV { m: u8, picks: Vec<u16>, life_days: u16, filler: bool, exp_mode: u8 },
+    /// macro: allocate, pre-commit with those allocations, wait, prove-commit
+    OnboardV { m: u8, sizes: Vec<u8>, life_days: u16, term_extra_days: u16, exp_mode: u8 },
+    /// extend a sector with verified weight: mode 0 maintain all, 1 drop all, 2 drop first, 3 declare none, 4 add a foreign claim;
+    /// target: 0 add_days, 1 = smallest claim term end + rel, 2 = into the last 30 days first
+    ExtendV { m: u8, pick: u16, add_days: u16, mode: u8, target: u8, rel: i8 },
+    /// the client extends the term of a claim
+    ExtendClaim { pick: u16, add_days: u16, by_client: bool },
+    /// anyone asks the registry to remove expired claims / allocations
+    RemoveExpired { m: u8, claims: bool },
 }
 
 #[derive(Clone, Debug, Serialize, Deserialize)]
@@ -76,6 +101,12 @@ pub struct SysCase {
     pub n_miners: u8,
     /// proof kinds per miner: 0 = 2KiB (2 sectors per partition), 1 = 8MiB, 2 = 32GiB
     pub proofs: Vec<u8>,
+    /// consensus minimum: 0 = mainnet (10 TiB), 1 = 2 KiB, 2 = 32 GiB (the documented devnet values)
+    #[serde(default)]
+    pub min_power: u8,
+    /// the reward actor starts with only a few FIL (reaches the 'reward never pays out more than it holds' branch)
+    #[serde(default)]
+    pub poor_reward: bool,
     pub ops: Vec<Op>,
 }
 
@@ -87,11 +118,12 @@ pub struct MinerH {
     pub post: RegisteredPoStProof,
     pub next_sector: u64,
     pub creation_deposit: BigInt,
+    pub created_at: i64,
 }
 
 impl MinerH {
     pub fn clone_h(&self) -> MinerH {
-        MinerH { id: self.id, owner: self.owner, worker: self.worker, seal: self.seal, post: self.post, next_sector: self.next_sector, creation_deposit: self.creation_deposit.clone() }
+        MinerH { id: self.id, owner: self.owner, worker: self.worker, seal: self.seal, post: self.post, next_sector: self.next_sector, creation_deposit: self.creation_deposit.clone(), created_at: self.created_at }
     }
 }
 
@@ -106,6 +138,17 @@ pub struct Sys<'a> {
     pub ticks: u64,
     pub checks: super::checks::Checks,
     pub cushion_miner: Option<MinerH>,
+    pub pending_tick_fault: Option<(u16, bool)>,
+    pub abandon: bool,
+    /// accepted PoSts: (miner index, deadline, epoch at which that deadline closes, bad proof)
+    pub recent_posts: Vec<(usize, u64, i64, bool)>,
+    pub verifier: ActorID,
+    pub vclient: ActorID,
+    /// allocations made: (id, provider, piece cid, size)
+    pub allocs: Vec<(u64, ActorID, cid::Cid, u64)>,
+    /// planned content per (miner, sector): (piece cid, size, allocation id)
+    pub plans: BTreeMap<(ActorID, u64), Vec<(cid::Cid, u64, Option<u64>)>>,
+    pub piece_counter: u64,
 }
 
 pub fn proof_of(kind: u8) -> (RegisteredSealProof, RegisteredPoStProof) {
@@ -118,19 +161,32 @@ pub fn proof_of(kind: u8) -> (RegisteredSealProof, RegisteredPoStProof) {
 
 impl<'a> Sys<'a> {
     pub fn new(case: &SysCase, stats: &'a mut CaseStats, focus: &str) -> VResult<Sys<'a>> {
-        let w = World::new(policy_with_small_sectors());
+        let mut pol = policy_with_small_sectors();
+        match case.min_power % 3 {
+            1 => pol.minimum_consensus_power = BigInt::from(2u64 << 10),
+            2 => pol.minimum_consensus_power = BigInt::from(32u64 << 30),
+            _ => {}
+        }
+        let w = if case.poor_reward { World::new_with(pol, TokenAmount::from_whole(60)) } else { World::new(pol) };
+        if case.poor_reward {
+            stats.label("poor_reward_actor");
+        }
         w.v.set_epoch(5);
+        if case.min_power % 3 != 0 {
+            stats.label("devnet_consensus_minimum");
+        }
         let stranger = w.account(600, &TokenAmount::from_whole(1000));
         let reporter = w.account(601, &TokenAmount::from_whole(1000));
-        let mut s = Sys { w, miners: vec![], stranger, reporter, stats, pending_fault: None, ticks: 0, checks: super::checks::Checks::default(), cushion_miner: None };
-        let n = (case.n_miners as usize).clamp(1, 3);
+        let mut s = Sys { w, miners: vec![], stranger, reporter, stats, pending_fault: None, ticks: 0, checks: super::checks::Checks::default(), cushion_miner: None, pending_tick_fault: None, abandon: false, recent_posts: vec![], verifier: 0, vclient: 0, allocs: vec![], plans: BTreeMap::new(), piece_counter: 0 };
+        s.setup_verified()?;
+        let n = (case.n_miners as usize).clamp(1, 4);
         for i in 0..n {
             let owner = s.w.account(610 + i as u16, &TokenAmount::from_whole(200_000));
             let worker = s.w.account(620 + i as u16, &TokenAmount::from_whole(1_000));
             let (seal, post) = proof_of(case.proofs.get(i).copied().unwrap_or(0));
             let (id, _) = s.w.create_miner(owner, worker, post, &TokenAmount::from_whole(5_000)).map_err(|r| Violation::new("create-miner-failed", r.message.clone()))?;
             let mv = read_miner(&s.w.v, id);
-            s.miners.push(MinerH { id, owner, worker, seal, post, next_sector: 0, creation_deposit: mv.locked.clone() });
+            s.miners.push(MinerH { id, owner, worker, seal, post, next_sector: 0, creation_deposit: mv.locked.clone(), created_at: 5 });
         }
         s.checks.focus = focus.to_string();
         s.checks.init(&s.w, &s.miners);
@@ -143,7 +199,7 @@ impl<'a> Sys<'a> {
         let owner = self.w.account(690, &TokenAmount::from_whole(50_000));
         let (id, _) = self.w.create_miner(owner, owner, RegisteredPoStProof::StackedDRGWindow32GiBV1P1, &TokenAmount::from_whole(5_000)).map_err(|r| Violation::new("create-miner-failed", r.message.clone()))?;
         let mv = read_miner(&self.w.v, id);
-        self.miners.push(MinerH { id, owner, worker: owner, seal: RegisteredSealProof::StackedDRG32GiBV1P1, post: RegisteredPoStProof::StackedDRGWindow32GiBV1P1, next_sector: 0, creation_deposit: mv.locked.clone() });
+        self.miners.push(MinerH { id, owner, worker: owner, seal: RegisteredSealProof::StackedDRG32GiBV1P1, post: RegisteredPoStProof::StackedDRGWindow32GiBV1P1, next_sector: 0, creation_deposit: mv.locked.clone(), created_at: -1 });
         self.checks.deposits.insert(id, mv.locked.clone());
         let gas = TokenAmount::from_whole(200_000);
         let p = fil_actor_reward::AwardBlockRewardParams { miner: Address::new_id(id), penalty: TokenAmount::zero(), gas_reward: gas.clone(), win_count: 1 };
@@ -155,6 +211,47 @@ impl<'a> Sys<'a> {
         let c = self.miners.pop().unwrap();
         self.cushion_miner = Some(c);
         self.after_message(Some(&r))
+    }
+
+    fn setup_verified(&mut self) -> VResult {
+        use fil_actor_verifreg as vr;
+        let w = &self.w;
+        let verifier = w.account(630, &TokenAmount::from_whole(10));
+        let vclient = w.account(631, &TokenAmount::from_whole(10));
+        let allowance = BigInt::from(1u64 << 50);
+        let p = vr::AddVerifierParams { address: Address::new_id(verifier), allowance: allowance.clone() };
+        let r = w.call(
+            w.root_signer,
+            w.root_msig,
+            fil_actor_multisig::Method::Propose as u64,
+            &TokenAmount::zero(),
+            &fil_actor_multisig::ProposeParams { to: Address::new_id(fil_actors_runtime::VERIFIED_REGISTRY_ACTOR_ID), value: TokenAmount::zero(), method: vr::Method::AddVerifier as u64, params: RawBytes::serialize(&p).unwrap() },
+        );
+        if !r.ok() {
+            return Err(Violation::new("setup-verifier-failed", r.message.clone()));
+        }
+        let r = w.call(verifier, fil_actors_runtime::VERIFIED_REGISTRY_ACTOR_ID, vr::Method::AddVerifiedClient as u64, &TokenAmount::zero(), &vr::AddVerifiedClientParams { address: Address::new_id(vclient), allowance });
+        if !r.ok() {
+            return Err(Violation::new("setup-client-failed", r.message.clone()));
+        }
+        self.verifier = verifier;
+        self.vclient = vclient;
+        Ok(())
+    }
+
+    fn pieces_for(&self, miner: ActorID, sector: u64) -> Vec<mi::PieceActivationManifest> {
+        match self.plans.get(&(miner, sector)) {
+            None => vec![],
+            Some(ps) => ps
+                .iter()
+                .map(|(cid, size, alloc)| mi::PieceActivationManifest {
+                    cid: *cid,
+                    size: fvm_shared::piece::PaddedPieceSize(*size),
+                    verified_allocation_key: alloc.map(|id| mi::VerifiedAllocationKey { client: self.vclient, id }),
+                    notify: vec![],
+                })
+                .collect(),
+        }
     }
 
     pub fn policy(&self) -> &Policy {
@@ -173,6 +270,56 @@ impl<'a> Sys<'a> {
 
     /// run the cron tick for the current epoch, check, advance one epoch
     pub fn tick(&mut self) -> VResult {
+        if self.abandon {
+            self.w.v.set_epoch(self.w.v.epoch() + 1);
+            return Ok(());
+        }
+        if let Some((ord, syscall)) = self.pending_tick_fault {
+            // candidates: sends that are not the dispatch chain itself (cron -> power/market, power -> miner callback)
+            let snap = self.w.v.snapshot();
+            let dry = self.w.cron_tick();
+            self.w.v.restore(&snap);
+            let mut cands: Vec<u64> = vec![];
+            dry.trace.walk(&mut |t, depth| {
+                let dispatch = depth <= 1 || (t.from == fil_actors_runtime::STORAGE_POWER_ACTOR_ID && t.method == mi::Method::OnDeferredCronEvent as u64);
+                if !dispatch && t.ordinal != u64::MAX && t.ordinal > 0 {
+                    cands.push(t.ordinal);
+                }
+            });
+            if cands.len() >= 3 {
+                let k = cands[pick(ord, cands.len())];
+                let mut plan = BTreeMap::new();
+                plan.insert(k, if syscall { Fault::Syscall(fvm_shared::error::ErrorNumber::LimitExceeded) } else { Fault::Abort(16) });
+                self.w.v.set_fault_plan(plan);
+                self.pending_tick_fault = None;
+                let snap2 = self.w.v.snapshot();
+                let r = self.w.cron_tick();
+                // tolerated iff the invocation that issued the failing send still returned OK
+                let mut tolerated = false;
+                r.trace.walk(&mut |t, _| {
+                    if t.subs.iter().any(|s| s.injected) && t.ok() {
+                        tolerated = true;
+                    }
+                });
+                if !tolerated {
+                    // the actor did not tolerate this failure: the fault is dropped and the tick re-run
+                    self.stats.count("tick_fault_not_tolerated_dropped", 1);
+                    self.w.v.restore(&snap2);
+                    let r = self.w.cron_tick();
+                    self.ticks += 1;
+                    let all = self.all_miners();
+                    self.checks.after_tick(&self.w, &all, &r, self.stats)?;
+                    self.w.v.set_epoch(self.w.v.epoch() + 1);
+                    return Ok(());
+                }
+                self.stats.label("tolerated_fault_in_tick");
+                self.ticks += 1;
+                let all = self.all_miners();
+                self.checks.after_tick(&self.w, &all, &r, self.stats)?;
+                self.w.v.set_epoch(self.w.v.epoch() + 1);
+                return Ok(());
+            }
+        }
         let r = self.w.cron_tick();
         self.ticks += 1;
         let all = self.all_miners();
@@ -255,6 +402,9 @@ impl<'a> Sys<'a> {
     }
 
     pub fn step(&mut self, i: usize, op: &Op) -> VResult {
+        if self.abandon {
+            return Ok(());
+        }
         let n = self.miners.len();
         let epoch = self.w.v.epoch();
         let zero = TokenAmount::zero();
@@ -264,12 +414,72 @@ impl<'a> Sys<'a> {
                 self.step(i, &Op::Advance(Adv::ProveWindow { m: *m, rel: 1 }))?;
                 self.step(i, &Op::ProveCommit { m: *m, max: 3, bad_proof: false, by: Who::Worker })?;
             }
+            Op::Bulk { m, n: extra, life_days } => {
+                let mi_ = *m as usize % n;
+                let (id, worker, seal) = (self.miners[mi_].id, self.miners[mi_].worker, self.miners[mi_].seal);
+                let max_prove = mi::max_prove_commit_duration(self.policy(), seal).unwrap();
+                let expiration = epoch + self.policy().min_sector_expiration + max_prove + (*life_days as i64 % 400) * PERIOD + 10;
+                let first = self.miners[mi_].next_sector;
+                let count = 94 + (*extra as u64 % 40);
+                let sectors: Vec<mi::SectorPreCommitInfo> = (first..first + count)
+                    .map(|num| mi::SectorPreCommitInfo {
+                        seal_proof: seal,
+                        sector_number: num,
+                        sealed_cid: make_sealed_cid(format!("sn{}-{}", id, num).as_bytes()),
+                        seal_rand_epoch: epoch - 1,
+                        deal_ids: vec![],
+                        expiration,
+                        unsealed_cid: mi::CompactCommD::empty(),
+                    })
+                    .collect();
+                let r = self.send(worker, id, mi::Method::PreCommitSectorBatch2 as u64, &zero, &mi::PreCommitSectorBatchParams2 { sectors })?;
+                self.stats.say(|| format!("op {i}: bulk PreCommit miner {id} {count} sectors from {first} at {epoch} -> {} {}", r.code.value(), r.message));
+                if !r.ok() {
+                    return Ok(());
+                }
+                self.miners[mi_].next_sector = first + count;
+                self.step(i, &Op::Advance(Adv::ProveWindow { m: *m, rel: 1 }))?;
+                let nums: Vec<u64> = (first..first + count).collect();
+                let p = mi::ProveCommitSectors3Params {
+                    sector_activations: nums.iter().map(|s| mi::SectorActivationManifest { sector_number: *s, pieces: vec![] }).collect(),
+                    sector_proofs: nums.iter().map(|_| RawBytes::new(vec![1, 2, 3, 4])).collect(),
+                    aggregate_proof: RawBytes::default(),
+                    aggregate_proof_type: None,
+                    require_activation_success: false,
+                    require_notification_success: false,
+                };
+                let r = self.send(worker, id, mi::Method::ProveCommitSectors3 as u64, &zero, &p)?;
+                self.stats.say(|| format!("op {i}: bulk ProveCommit miner {id} {count} sectors -> {} {}", r.code.value(), r.message));
+                if r.ok() {
+                    self.stats.label("proven");
+                    self.stats.label("bulk_onboarded");
+                }
+            }
+            Op::Long { m, days, post } => {
+                let target = epoch + (*days as i64) * PERIOD;
+                self.stats.label(if *days >= 178 { "long_180_days" } else if *days >= 42 { "long_42_days" } else { "long_days" });
+                if *post {
+                    loop {
+                        let before = self.w.v.epoch();
+                        self.step(i, &Op::Advance(Adv::NextSectorDeadline { m: *m, into: 1 }))?;
+                        let now = self.w.v.epoch();
+                        if now == before || now >= target {
+                            break;
+                        }
+                        self.step(i, &Op::Post { m: *m, skip: vec![], bad_proof: false, partial: false, by: Who::Worker })?;
+                    }
+                }
+                self.advance_to(target)?;
+            }
             Op::PostNext { m, into, skip, bad_proof, partial } => {
                 self.step(i, &Op::Advance(Adv::NextSectorDeadline { m: *m, into: *into }))?;
                 self.step(i, &Op::Post { m: *m, skip: skip.clone(), bad_proof: *bad_proof, partial: *partial, by: Who::Worker })?;
             }
             Op::InjectFault { ordinal, syscall } => {
                 self.pending_fault = Some((*ordinal, *syscall));
+            }
+            Op::TickFault { ordinal, syscall } => {
+                self.pending_tick_fault = Some((*ordinal, *syscall));
             }
             Op::Advance(a) => {
                 let target = match a {
@@ -339,7 +549,16 @@ impl<'a> Sys<'a> {
                         unsealed_cid: mi::CompactCommD::empty(),
                     });
                 }
+                let allocated_before = if self.checks.on("C04") { read_miner(&self.w.v, id).allocated.clone() } else { Default::default() };
                 let r = self.send(worker, id, mi::Method::PreCommitSectorBatch2 as u64, &zero, &mi::PreCommitSectorBatchParams2 { sectors: sectors.clone() })?;
+                if r.ok() {
+                    let mut nums = BTreeSet::new();
+                    for s in &sectors {
+                        if allocated_before.contains(&s.sector_number) || !nums.insert(s.sector_number) {
+                            return Err(Violation::new("sector-number-reused", format!("miner {id} accepted a pre-commitment for sector number {} which was allocated before", s.sector_number)));
+                        }
+                    }
+                }
                 self.stats.say(|| format!("op {i}: PreCommit miner {id} {} sectors at {epoch} -> {} {}", sectors.len(), r.code.value(), r.message));
                 if r.ok() {
                     self.miners[mi_].next_sector = sectors.iter().map(|s| s.sector_number).max().unwrap() + 1;
@@ -358,7 +577,7 @@ impl<'a> Sys<'a> {
                     return Ok(());
                 }
                 let p = mi::ProveCommitSectors3Params {
-                    sector_activations: chosen.iter().map(|s| mi::SectorActivationManifest { sector_number: *s, pieces: vec![] }).collect(),
+                    sector_activations: chosen.iter().map(|s| mi::SectorActivationManifest { sector_number: *s, pieces: self.pieces_for(id, *s) }).collect(),
                     sector_proofs: chosen.iter().map(|_| RawBytes::new(if *bad_proof { BAD_PROOF.to_vec() } else { vec![1, 2, 3, 4] })).collect(),
                     aggregate_proof: RawBytes::default(),
                     aggregate_proof_type: None,
@@ -414,6 +633,7 @@ impl<'a> Sys<'a> {
                         self.stats.label("post_with_skips");
                     }
                     self.checks.note_post(id, dl as u64, &parts, *bad_proof);
+                    self.recent_posts.push((mi_, dl as u64, open + DEADLINE_EPOCHS - 1, *bad_proof));
                 }
             }
             Op::DeclareFaults { m, sectors, by } | Op::DeclareRecovered { m, sectors, by } | Op::Terminate { m, sectors, by } => {
@@ -508,7 +728,7 @@ impl<'a> Sys<'a> {
                 let v = if self.w.v.balance(SYSTEM_ACTOR_ID) >= gas_reward { gas_reward.clone() } else { TokenAmount::zero() };
                 let p = if v.is_zero() { fil_actor_reward::AwardBlockRewardParams { gas_reward: TokenAmount::zero(), ..p } } else { p };
                 let r = self.send(SYSTEM_ACTOR_ID, REWARD_ACTOR_ID, fil_actor_reward::Method::AwardBlockReward as u64, &v, &p)?;
-                self.stats.say(|| format!("op {i}: AwardBlockReward miner {id} gas {gas_reward} penalty {penalty} wins {} -> {} {}", wins % 3, r.code.value(), r.message));
+                self.stats.say(|| format!("op {i}: AwardBlockReward miner {id} gas {gas_reward} penalty {penalty} wins {} -> {} {}\n{}", wins % 3, r.code.value(), r.message, r.trace.short()));
                 if r.ok() {
                     self.stats.label("rewarded");
                 }
@@ -532,6 +752,258 @@ impl<'a> Sys<'a> {
                 let (id, owner) = (h.id, h.owner);
                 let r = self.w.call_raw(owner, id, mi::Method::RepayDebt as u64, &TokenAmount::from_whole(1), None);
                 self.after_message(Some(&r))?;
+            }
+            Op::Allocate { m, sizes, term_min_extra_days, term_extra_days, exp_days } => {
+                use fil_actor_verifreg as vr;
+                let mi_ = *m as usize % n;
+                let id = self.miners[mi_].id;
+                let ssize = read_miner(&self.w.v, id).sector_size;
+                if ssize < (1 << 20) {
+                    return Ok(());
+                }
+                let pol = self.policy().clone();
+                let term_min = pol.minimum_verified_allocation_term + (*term_min_extra_days as i64 % 400) * PERIOD;
+                let term_max = std::cmp::min(term_min + (*term_extra_days as i64 % 1500) * PERIOD, pol.maximum_verified_allocation_term);
+                let expiration = epoch + std::cmp::max(1, (*exp_days as i64 % 61) * PERIOD);
+                let mut reqs = vec![];
+                let mut total = BigInt::zero();
+                for k in sizes.iter().take(4) {
+                    let size = std::cmp::max(ssize >> (*k % 4), 1 << 20);
+                    self.piece_counter += 1;
+                    let data = fil_actors_runtime::test_utils::make_piece_cid(format!("piece-{}", self.piece_counter).as_bytes());
+                    reqs.push(vr::AllocationRequest { provider: id, data, size: fvm_shared::piece::PaddedPieceSize(size), term_min, term_max, expiration });
+                    total += BigInt::from(size);
+                }
+                if reqs.is_empty() {
+                    return Ok(());
+                }
+                let params = frc46_token::token::types::TransferParams {
+                    to: Address::new_id(fil_actors_runtime::VERIFIED_REGISTRY_ACTOR_ID),
+                    amount: TokenAmount::from_atto(&total * BigInt::from(10u64.pow(18))),
+                    operator_data: RawBytes::serialize(&vr::AllocationRequests { allocations: reqs.clone(), extensions: vec![] }).unwrap(),
+                };
+                let from = self.vclient;
+                let r = self.send(from, fil_actors_runtime::DATACAP_TOKEN_ACTOR_ID, fil_actor_datacap::Method::TransferExported as u64, &zero, &params)?;
+                self.stats.say(|| format!("op {i}: Allocate {} pieces to miner {id} term [{term_min}, {term_max}] expiring {expiration} -> {} {}", reqs.len(), r.code.value(), r.message));
+                if r.ok() {
+                    let ret: Option<frc46_token::token::types::TransferReturn> = r.de();
+                    let resp: Option<vr::AllocationsResponse> = ret.and_then(|t| fvm_ipld_encoding::from_slice(&t.recipient_data).ok());
+                    if let Some(resp) = resp {
+                        for (aid, rq) in resp.new_allocations.iter().zip(reqs.iter()) {
+                            self.allocs.push((*aid, id, rq.data, rq.size.0));
+                        }
+                        self.stats.label("allocated");
+                    }
+                }
+            }
+            Op::PreCommitV { m, picks, life_days, filler, exp_mode } => {
+                let mi_ = *m as usize % n;
+                let (id, worker, seal) = (self.miners[mi_].id, self.miners[mi_].worker, self.miners[mi_].seal);
+                let ssize = read_miner(&self.w.v, id).sector_size;
+                let reg = super::verified::read_registry(&self.w.v);
+                let mine: Vec<(u64, ActorID, cid::Cid, u64)> = self.allocs.iter().filter(|a| a.1 == id).cloned().collect();
+                if mine.is_empty() {
+                    return Ok(());
+                }
+                let open: Vec<&(u64, ActorID, cid::Cid, u64)> = mine.iter().filter(|a| reg.allocs.contains_key(&a.0)).collect();
+                let mut plan: Vec<(cid::Cid, u64, Option<u64>)> = vec![];
+                let mut used = 0u64;
+                let mut term_lo = 0i64;
+                let mut term_hi = i64::MAX;
+                for pk in picks.iter().take(4) {
+                    // mostly open allocations, sometimes one that is already claimed or expired
+                    let a = if !open.is_empty() && pk % 8 != 0 { open[pick(*pk, open.len())] } else { &mine[pick(*pk, mine.len())] };
+                    if used + a.3 > ssize || plan.iter().any(|p| p.2 == Some(a.0)) && pk % 16 != 1 {
+                        continue;
+                    }
+                    used += a.3;
+                    plan.push((a.2, a.3, Some(a.0)));
+                    if let Some(al) = reg.allocs.get(&a.0) {
+                        term_lo = term_lo.max(al.term_min);
+                        term_hi = term_hi.min(al.term_max);
+                    }
+                }
+                if plan.is_empty() {
+                    return Ok(());
+                }
+                if *filler && used < ssize {
+                    let rest = ssize - used;
+                    let size = 1u64 << (63 - rest.leading_zeros());
+                    self.piece_counter += 1;
+                    plan.push((fil_actors_runtime::test_utils::make_piece_cid(format!("filler-{}", self.piece_counter).as_bytes()), size, None));
+                }
+                let max_prove = mi::max_prove_commit_duration(self.policy(), seal).unwrap();
+                let base = epoch + max_prove + 10;
+                let expiration = match exp_mode % 8 {
+                    // too short for the claims' minimum term
+                    6 => epoch + self.policy().min_sector_expiration + max_prove + 10,
+                    // beyond the claims' maximum term
+                    7 if term_hi < i64::MAX => base + term_hi + PERIOD,
+                    _ => base + std::cmp::max(self.policy().min_sector_expiration, term_lo) + (*life_days as i64 % 300) * PERIOD,
+                };
+                let num = self.miners[mi_].next_sector;
+                let pieces: Vec<fvm_shared::piece::PieceInfo> = plan.iter().map(|(c, s, _)| fvm_shared::piece::PieceInfo { cid: *c, size: fvm_shared::piece::PaddedPieceSize(*s) }).collect();
+                let commd = fil_actors_runtime::runtime::Primitives::compute_unsealed_sector_cid(&self.w.v.primitives, seal, &pieces).expect("commd");
+                let info = mi::SectorPreCommitInfo {
+                    seal_proof: seal,
+                    sector_number: num,
+                    sealed_cid: make_sealed_cid(format!("sn{}-{}", id, num).as_bytes()),
+                    seal_rand_epoch: epoch - 1,
+                    deal_ids: vec![],
+                    expiration,
+                    unsealed_cid: mi::CompactCommD::of(commd),
+                };
+                let r = self.send(worker, id, mi::Method::PreCommitSectorBatch2 as u64, &zero, &mi::PreCommitSectorBatchParams2 { sectors: vec![info] })?;
+                self.stats.say(|| format!("op {i}: PreCommitV miner {id} sector {num} with {} pieces (allocations {:?}) expiration {expiration} at {epoch} -> {} {}", plan.len(), plan.iter().filter_map(|p| p.2).collect::<Vec<_>>(), r.code.value(), r.message));
+                if r.ok() {
+                    self.miners[mi_].next_sector = num + 1;
+                    self.plans.insert((id, num), plan);
+                    self.stats.label("precommitted");
+                    self.stats.label("precommitted_with_allocations");
+                }
+            }
+            Op::OnboardV { m, sizes, life_days, term_extra_days, exp_mode } => {
+                let before = self.allocs.len();
+                self.step(i, &Op::Allocate { m: *m, sizes: sizes.clone(), term_min_extra_days: 0, term_extra_days: *term_extra_days, exp_days: 30 })?;
+                let made = self.allocs.len() - before;
+                if made == 0 {
+                    return Ok(());
+                }
+                // picks that address exactly the new allocations (they are the last `made` of this miner's open ones)
+                let id = self.miners[*m as usize % n].id;
+                let reg = super::verified::read_registry(&self.w.v);
+                let open: Vec<u64> = self.allocs.iter().filter(|a| a.1 == id && reg.allocs.contains_key(&a.0)).map(|a| a.0).collect();
+                let mut picks = vec![];
+                for k in 0..made.min(4) {
+                    let idx = open.len() - 1 - k;
+                    let mut f = ((idx as u32 * 65536 + 65535) / open.len() as u32).min(65535) as u16;
+                    if f % 8 == 0 {
+                        f = f.saturating_sub(1);
+                    }
+                    picks.push(f);
+                }
+                self.step(i, &Op::PreCommitV { m: *m, picks, life_days: *life_days, filler: false, exp_mode: *exp_mode })?;
+                self.step(i, &Op::Advance(Adv::ProveWindow { m: *m, rel: 1 }))?;
+                self.step(i, &Op::ProveCommit { m: *m, max: 3, bad_proof: false, by: Who::Worker })?;
+            }
+            Op::ExtendV { m, pick: pk, add_days, mode, target, rel } => {
+                let mi_ = *m as usize % n;
+                let (id, worker) = (self.miners[mi_].id, self.miners[mi_].worker);
+                let mv = read_miner(&self.w.v, id);
+                let reg = super::verified::read_registry(&self.w.v);
+                let cands: Vec<u64> = mv.sectors.values().filter(|s| s.verified_weight.is_positive()).map(|s| s.number).filter(|s| mv.deadlines.iter().any(|d| d.partitions.iter().any(|p| p.sectors.contains(s) && !p.terminated.contains(s)))).collect();
+                if cands.is_empty() {
+                    return Ok(());
+                }
+                let s = cands[pick(*pk, cands.len())];
+                let info = mv.sectors[&s].clone();
+                let claims: Vec<(u64, super::verified::ClaimV)> = reg.claims.iter().filter(|(_, c)| c.provider == id && c.sector == s).map(|(k, v)| (*k, v.clone())).collect();
+                let min_end = claims.iter().map(|(_, c)| c.term_start + c.term_max).min().unwrap_or(info.expiration);
+                if *target % 3 == 2 && info.expiration - epoch > super::verified::DROP_PERIOD {
+                    // move into the final 30 days of the sector's life first
+                    let t = info.expiration - super::verified::DROP_PERIOD + (*rel as i64) * 10;
+                    if t > epoch && t - epoch < 220 * PERIOD {
+                        self.stats.label("advanced_to_end_of_life");
+                        self.advance_to(t)?;
+                    }
+                }
+                let epoch = self.w.v.epoch();
+                let new_expiration = match target % 3 {
+                    1 => min_end + *rel as i64,
+                    _ => info.expiration + (*add_days as i64 % 300) * PERIOD,
+                };
+                let ids: Vec<u64> = claims.iter().map(|(k, _)| *k).collect();
+                let (maintain, drop): (Vec<u64>, Vec<u64>) = match mode % 5 {
+                    0 => (ids.clone(), vec![]),
+                    1 => (vec![], ids.clone()),
+                    2 => (ids.iter().skip(1).copied().collect(), ids.iter().take(1).copied().collect()),
+                    3 => (vec![], vec![]),
+                    _ => {
+                        let mut v = ids.clone();
+                        if let Some((k, _)) = reg.claims.iter().find(|(_, c)| !(c.provider == id && c.sector == s)) {
+                            v.push(*k);
+                        }
+                        (v, vec![])
+                    }
+                };
+                let loc = Self::locate(&mv, &[s]);
+                let ((d, p), _) = loc.iter().next().unwrap();
+                let mut b = BitField::new();
+                let swc = if maintain.is_empty() && drop.is_empty() {
+                    b.set(s);
+                    vec![]
+                } else {
+                    vec![mi::SectorClaim { sector_number: s, maintain_claims: maintain.clone(), drop_claims: drop.clone() }]
+                };
+                let ext = mi::ExpirationExtension2 { deadline: *d, partition: *p, sectors: b, sectors_with_claims: swc, new_expiration };
+                let r = self.send(worker, id, mi::Method::ExtendSectorExpiration2 as u64, &zero, &mi::ExtendSectorExpiration2Params { extensions: vec![ext] })?;
+                self.stats.say(|| format!("op {i}: ExtendV miner {id} sector {s} (expiration {}) to {new_expiration} maintain {maintain:?} drop {drop:?} at {epoch} -> {} {}", info.expiration, r.code.value(), r.message));
+                if r.ok() {
+                    self.stats.label("extended");
+                }
+            }
+            Op::ExtendClaim { pick: pk, add_days, by_client } => {
+                use fil_actor_verifreg as vr;
+                let reg = super::verified::read_registry(&self.w.v);
+                if reg.claims.is_empty() {
+                    return Ok(());
+                }
+                let ids: Vec<u64> = reg.claims.keys().copied().collect();
+                let cid_ = ids[pick(*pk, ids.len())];
+                let cl = &reg.claims[&cid_];
+                let from = if *by_client { self.vclient } else { self.stranger };
+                let term_max = cl.term_max + (*add_days as i64 % 800) * PERIOD - if *add_days % 16 == 0 { PERIOD } else { 0 };
+                let r = self.send(from, fil_actors_runtime::VERIFIED_REGISTRY_ACTOR_ID, vr::Method::ExtendClaimTerms as u64, &zero, &vr::ExtendClaimTermsParams { terms: vec![vr::ClaimTerm { provider: cl.provider, claim_id: cid_, term_max }] })?;
+                self.stats.say(|| format!("op {i}: ExtendClaimTerms claim {cid_} term_max {} -> {term_max} by {from} -> {} {}", cl.term_max, r.code.value(), r.message));
+            }
+            Op::RemoveExpired { m, claims } => {
+                use fil_actor_verifreg as vr;
+                let id = self.miners[*m as usize % n].id;
+                let from = self.stranger;
+                let r = if *claims {
+                    self.send(from, fil_actors_runtime::VERIFIED_REGISTRY_ACTOR_ID, vr::Method::RemoveExpiredClaims as u64, &zero, &vr::RemoveExpiredClaimsParams { provider: id, claim_ids: vec![] })?
+                } else {
+                    let c = self.vclient;
+                    self.send(from, fil_actors_runtime::VERIFIED_REGISTRY_ACTOR_ID, vr::Method::RemoveExpiredAllocations as u64, &zero, &vr::RemoveExpiredAllocationsParams { client: c, allocation_ids: vec![] })?
+                };
+                self.stats.say(|| format!("op {i}: RemoveExpired claims={claims} -> {} {}", r.code.value(), r.message));
+            }
+            Op::WithFault { ordinal, syscall, op } => {
+                self.pending_fault = Some((*ordinal, *syscall));
+                self.step(i, op)?;
+                self.pending_fault = None;
+            }
+            Op::BadPostDispute { m, into, rel } => {
+                self.step(i, &Op::PostNext { m: *m, into: *into, skip: vec![], bad_proof: true, partial: false })?;
+                let last = self.recent_posts.len();
+                if last > 0 && self.recent_posts[last - 1].3 {
+                    // pick = index of the latest post among the bad ones
+                    let bad = self.recent_posts.iter().filter(|p| p.3).count();
+                    let pk = (((bad - 1) as u32 * 65536 + 65535) / bad as u32).min(65535) as u16;
+                    let pk = if pk % 4 == 0 { pk.saturating_sub(1) } else { pk };
+                    self.step(i, &Op::DisputeRecent { pick: pk, rel: *rel, index: 0 })?;
+                }
+            }
+            Op::DisputeRecent { pick: pk, rel, index } => {
+                if self.recent_posts.is_empty() {
+                    return Ok(());
+                }
+                // prefer PoSts with a bad proof
+                let bad: Vec<usize> = self.recent_posts.iter().enumerate().filter(|(_, p)| p.3).map(|(i, _)| i).collect();
+                let idx = if !bad.is_empty() && pk % 4 != 0 { bad[pick(*pk, bad.len())] } else { pick(*pk, self.recent_posts.len()) };
+                let (mi_, dl, close, _) = self.recent_posts[idx];
+                let target = close + 1 + *rel as i64;
+                if target > epoch {
+                    self.advance_to(target)?;
+                }
+                let id = self.miners[mi_].id;
+                let from = self.reporter;
+                let now = self.w.v.epoch();
+                let r = self.send(from, id, mi::Method::DisputeWindowedPoSt as u64, &zero, &mi::DisputeWindowedPoStParams { deadline: dl, post_index: *index as u64 % 2 })?;
+                self.stats.say(|| format!("op {i}: Dispute (recent) miner {id} deadline {dl} index {} at {now} (closed {close}) -> {} {}", index % 2, r.code.value(), r.message));
+                if r.ok() {
+                    self.stats.label("dispute_succeeded");
+                }
             }
             Op::Dispute { m, deadline, index } => {
                 let id = self.miners[*m as usize % n].id;
@@ -562,11 +1034,11 @@ impl<'a> Sys<'a> {
 pub fn adv_strategy() -> impl Strategy<Value = Adv> {
     prop_oneof![
         3 => (0u16..200).prop_map(Adv::Epochs),
-        5 => (0u8..3, -1i8..2).prop_map(|(m, rel)| Adv::DeadlineEnd { m, rel }),
+        5 => (0u8..4, -1i8..2).prop_map(|(m, rel)| Adv::DeadlineEnd { m, rel }),
         3 => (0u8..50).prop_map(|k| Adv::Deadlines { k }),
-        4 => (0u8..3, -1i8..3).prop_map(|(m, rel)| Adv::ProveWindow { m, rel }),
+        4 => (0u8..4, -1i8..3).prop_map(|(m, rel)| Adv::ProveWindow { m, rel }),
         1 => (0u8..4).prop_map(Adv::Days),
-        8 => (0u8..3, prop_oneof![3 => 0u8..5, 1 => 0u8..60]).prop_map(|(m, into)| Adv::NextSectorDeadline { m, into }),
+        8 => (0u8..4, prop_oneof![3 => 0u8..5, 1 => 0u8..60]).prop_map(|(m, into)| Adv::NextSectorDeadline { m, into }),
     ]
 }
 
@@ -574,30 +1046,67 @@ pub fn who_strategy() -> impl Strategy<Value = Who> {
     prop_oneof![10 => Just(Who::Worker), 3 => Just(Who::Owner), 1 => Just(Who::Stranger), 1 => Just(Who::OtherOwner)]
 }
 
-pub fn op_strategy() -> impl Strategy<Value = Op> {
-    let refs = || proptest::collection::vec(any::<u16>(), 1..4);
+pub fn op_strategy_w(bulk: u32, long: u32, dispute: u32, verified: u32) -> impl Strategy<Value = Op> {
+    // moving a sector into the last 30 days of its life costs >= 150 days of ticks
+    let eol = if long >= 6 { 6 } else { 1 };
     prop_oneof![
-        8 => (0u8..3, 0u8..3, 0u16..400, prop_oneof![12 => Just(0u8), 1 => 1u8..4]).prop_map(|(m, n, life_days, bad)| Op::PreCommit { m, n, life_days, bad }),
-        8 => (0u8..3, 0u8..4, prop_oneof![15 => Just(false), 1 => Just(true)], who_strategy()).prop_map(|(m, max, bad_proof, by)| Op::ProveCommit { m, max, bad_proof, by }),
-        14 => (0u8..3, prop_oneof![4 => Just(vec![]), 1 => proptest::collection::vec(any::<u16>(), 1..3)], prop_oneof![12 => Just(false), 1 => Just(true)], prop_oneof![5 => Just(false), 1 => Just(true)], who_strategy()).prop_map(|(m, skip, bad_proof, partial, by)| Op::Post { m, skip, bad_proof, partial, by }),
-        3 => (0u8..3, refs(), who_strategy()).prop_map(|(m, sectors, by)| Op::DeclareFaults { m, sectors, by }),
-        3 => (0u8..3, refs(), who_strategy()).prop_map(|(m, sectors, by)| Op::DeclareRecovered { m, sectors, by }),
-        2 => (0u8..3, refs(), who_strategy()).prop_map(|(m, sectors, by)| Op::Terminate { m, sectors, by }),
-        2 => (0u8..3, refs(), 1u16..300).prop_map(|(m, sectors, add_days)| Op::Extend { m, sectors, add_days }),
-        1 => (0u8..3, 0u8..48).prop_map(|(m, deadline)| Op::Compact { m, deadline }),
-        4 => (0u8..3, 0u32..50_000, prop_oneof![3 => Just(0u32), 1 => 0u32..100_000], prop_oneof![1 => Just(0u8), 6 => 1u8..3]).prop_map(|(m, milli, penalty_milli, wins)| Op::Reward { m, milli, penalty_milli, wins }),
-        3 => (0u8..3, prop_oneof![4 => Just(Who::Owner), 1 => Just(Who::Worker), 1 => Just(Who::Stranger)], prop_oneof![3 => 0u16..1000, 1 => Just(1000u16), 1 => 1001u16..2000]).prop_map(|(m, by, pm)| Op::Withdraw { m, by, pm }),
-        1 => (0u8..3).prop_map(|m| Op::RepayDebt { m }),
-        1 => (0u8..3, 0u8..48, 0u8..2).prop_map(|(m, deadline, index)| Op::Dispute { m, deadline, index }),
-        1 => (0u8..3, 0u8..7, 0u16..1200, prop_oneof![Just(Who::Reporter), Just(Who::Stranger)]).prop_map(|(m, kind, age, by)| Op::ConsensusFault { m, kind, age, by }),
-        1 => (0u8..3, 0u16..2000).prop_map(|(m, whole)| Op::TopUp { m, whole }),
-        14 => adv_strategy().prop_map(Op::Advance),
-        6 => (0u8..3, 0u8..3, 0u16..400).prop_map(|(m, n, life_days)| Op::Onboard { m, n, life_days }),
-        16 => (0u8..3, prop_oneof![3 => 0u8..5, 1 => 0u8..60], prop_oneof![4 => Just(vec![]), 1 => proptest::collection::vec(any::<u16>(), 1..3)], prop_oneof![14 => Just(false), 1 => Just(true)], prop_oneof![6 => Just(false), 1 => Just(true)]).prop_map(|(m, into, skip, bad_proof, partial)| Op::PostNext { m, into, skip, bad_proof, partial }),
-        1 => (any::<u16>(), any::<bool>()).prop_map(|(ordinal, syscall)| Op::InjectFault { ordinal, syscall }),
+        2000 => op_strategy(),
+        bulk * 10 => (0u8..4, 0u8..40, 0u16..400).prop_map(|(m, n, life_days)| Op::Bulk { m, n, life_days }),
+        dispute * 2 => (0u8..4, 0u8..5, -1i16..40).prop_map(|(m, into, rel)| Op::BadPostDispute { m, into, rel }),
+        dispute => (any::<u16>(), prop_oneof![4 => -1i16..3, 2 => 0i16..1800, 1 => 1795i16..1805], prop_oneof![4 => Just(0u8), 1 => Just(1u8)]).prop_map(|(pick, rel, index)| Op::DisputeRecent { pick, rel, index }),
+        30 => (any::<u16>(), any::<bool>(), faultable_op()).prop_map(|(ordinal, syscall, op)| Op::WithFault { ordinal, syscall, op: Box::new(op) }),
+        verified * 4 => (0u8..4, proptest::collection::vec(0u8..4, 1..4), 0u16..300, 0u16..1500, prop_oneof![6 => 0u8..6, 1 => 6u8..8]).prop_map(|(m, sizes, life_days, term_extra_days, exp_mode)| Op::OnboardV { m, sizes, life_days, term_extra_days, exp_mode }),
+        verified => (0u8..4, proptest::collection::vec(0u8..4, 1..4), 0u16..400, 0u16..1500, 0u8..70).prop_map(|(m, sizes, term_min_extra_days, term_extra_days, exp_days)| Op::Allocate { m, sizes, term_min_extra_days, term_extra_days, exp_days }),
+        verified => (0u8..4, proptest::collection::vec(any::<u16>(), 1..4), 0u16..300, any::<bool>(), 0u8..8).prop_map(|(m, picks, life_days, filler, exp_mode)| Op::PreCommitV { m, picks, life_days, filler, exp_mode }),
+        verified * 4 => (0u8..4, any::<u16>(), 0u16..300, prop_oneof![3 => Just(0u8), 1 => 1u8..5], prop_oneof![8 => Just(0u8), 6 => Just(1u8), eol => Just(2u8)], -2i8..3).prop_map(|(m, pick, add_days, mode, target, rel)| Op::ExtendV { m, pick, add_days, mode, target, rel }),
+        verified => (any::<u16>(), 0u16..800, prop_oneof![5 => Just(true), 1 => Just(false)]).prop_map(|(pick, add_days, by_client)| Op::ExtendClaim { pick, add_days, by_client }),
+        verified => (0u8..4, any::<bool>()).prop_map(|(m, claims)| Op::RemoveExpired { m, claims }),
+        long.max(1) => (0u8..4, if long >= 6 { prop_oneof![4 => 1u8..6, 2 => 41u8..45, 1 => 178u8..186].boxed() } else if long >= 1 { prop_oneof![4 => 1u8..6, 2 => 41u8..45].boxed() } else { (1u8..3).boxed() }, any::<bool>()).prop_map(|(m, days, post)| Op::Long { m, days, post }),
     ]
 }
 
+/// operations with tolerated nested failures worth aiming at
+pub fn faultable_op() -> impl Strategy<Value = Op> {
+    let refs = || proptest::collection::vec(any::<u16>(), 1..4);
+    prop_oneof![
+        3 => (0u8..4, 0u8..5, 1u16..1200, prop_oneof![Just(Who::Reporter), Just(Who::Stranger)]).prop_map(|(m, kind, age, by)| Op::ConsensusFault { m, kind, age, by }),
+        2 => (any::<u16>(), 0i16..100, Just(0u8)).prop_map(|(pick, rel, index)| Op::DisputeRecent { pick, rel, index }),
+        2 => (0u8..4, refs(), Just(Who::Worker)).prop_map(|(m, sectors, by)| Op::Terminate { m, sectors, by }),
+        2 => (0u8..4, 0u32..50_000, prop_oneof![1 => Just(0u32), 1 => 0u32..100_000], 1u8..3).prop_map(|(m, milli, penalty_milli, wins)| Op::Reward { m, milli, penalty_milli, wins }),
+        1 => (0u8..4, Just(Who::Owner), 0u16..1000).prop_map(|(m, by, pm)| Op::Withdraw { m, by, pm }),
+        1 => (0u8..4, 0u8..4, Just(false), Just(Who::Worker)).prop_map(|(m, max, bad_proof, by)| Op::ProveCommit { m, max, bad_proof, by }),
+    ]
+}
+
+pub fn op_strategy() -> impl Strategy<Value = Op> {
+    let refs = || proptest::collection::vec(any::<u16>(), 1..4);
+    prop_oneof![
+        8 => (0u8..4, 0u8..4, 0u16..400, prop_oneof![12 => Just(0u8), 1 => 1u8..4]).prop_map(|(m, n, life_days, bad)| Op::PreCommit { m, n, life_days, bad }),
+        8 => (0u8..4, 0u8..4, prop_oneof![15 => Just(false), 1 => Just(true)], who_strategy()).prop_map(|(m, max, bad_proof, by)| Op::ProveCommit { m, max, bad_proof, by }),
+        14 => (0u8..4, prop_oneof![4 => Just(vec![]), 1 => proptest::collection::vec(any::<u16>(), 1..3)], prop_oneof![12 => Just(false), 1 => Just(true)], prop_oneof![5 => Just(false), 1 => Just(true)], who_strategy()).prop_map(|(m, skip, bad_proof, partial, by)| Op::Post { m, skip, bad_proof, partial, by }),
+        3 => (0u8..4, refs(), who_strategy()).prop_map(|(m, sectors, by)| Op::DeclareFaults { m, sectors, by }),
+        3 => (0u8..4, refs(), who_strategy()).prop_map(|(m, sectors, by)| Op::DeclareRecovered { m, sectors, by }),
+        2 => (0u8..4, refs(), who_strategy()).prop_map(|(m, sectors, by)| Op::Terminate { m, sectors, by }),
+        2 => (0u8..4, refs(), 1u16..300).prop_map(|(m, sectors, add_days)| Op::Extend { m, sectors, add_days }),
+        1 => (0u8..4, 0u8..48).prop_map(|(m, deadline)| Op::Compact { m, deadline }),
+        4 => (0u8..4, 0u32..50_000, prop_oneof![3 => Just(0u32), 1 => 0u32..100_000], prop_oneof![1 => Just(0u8), 6 => 1u8..3]).prop_map(|(m, milli, penalty_milli, wins)| Op::Reward { m, milli, penalty_milli, wins }),
+        3 => (0u8..4, prop_oneof![4 => Just(Who::Owner), 1 => Just(Who::Worker), 1 => Just(Who::Stranger)], prop_oneof![3 => 0u16..1000, 1 => Just(1000u16), 1 => 1001u16..2000]).prop_map(|(m, by, pm)| Op::Withdraw { m, by, pm }),
+        1 => (0u8..3).prop_map(|m| Op::RepayDebt { m }),
+        1 => (0u8..4, 0u8..48, 0u8..2).prop_map(|(m, deadline, index)| Op::Dispute { m, deadline, index }),
+        1 => (0u8..4, 0u8..7, 0u16..1200, prop_oneof![Just(Who::Reporter), Just(Who::Stranger)]).prop_map(|(m, kind, age, by)| Op::ConsensusFault { m, kind, age, by }),
+        1 => (0u8..4, 0u16..2000).prop_map(|(m, whole)| Op::TopUp { m, whole }),
+        14 => adv_strategy().prop_map(Op::Advance),
+        6 => (0u8..4, 0u8..4, 0u16..400).prop_map(|(m, n, life_days)| Op::Onboard { m, n, life_days }),
+        16 => (0u8..4, prop_oneof![3 => 0u8..5, 1 => 0u8..60], prop_oneof![4 => Just(vec![]), 1 => proptest::collection::vec(any::<u16>(), 1..3)], prop_oneof![14 => Just(false), 1 => Just(true)], prop_oneof![6 => Just(false), 1 => Just(true)]).prop_map(|(m, into, skip, bad_proof, partial)| Op::PostNext { m, into, skip, bad_proof, partial }),
+        1 => (any::<u16>(), any::<bool>()).prop_map(|(ordinal, syscall)| Op::InjectFault { ordinal, syscall }),
+        1 => (any::<u16>(), any::<bool>()).prop_map(|(ordinal, syscall)| Op::TickFault { ordinal, syscall }),
+    ]
+}
+
+pub fn case_strategy_w(max_ops: usize, bulk: u32, long: u32, dispute: u32, verified: u32) -> impl Strategy<Value = SysCase> {
+    (1u8..5, proptest::collection::vec(prop_oneof![(if verified >= 20 { 1 } else { 3 }) => Just(0u8), (if verified >= 20 { 4 } else { 1 }) => Just(1u8), 1 => Just(2u8)], 4), prop_oneof![2 => Just(0u8), 2 => Just(1u8), 1 => Just(2u8)], prop_oneof![9 => Just(false), 1 => Just(true)], proptest::collection::vec(op_strategy_w(bulk, long, dispute, verified), 0..max_ops)).prop_map(|(n_miners, proofs, min_power, poor_reward, ops)| SysCase { n_miners, proofs, min_power, poor_reward, ops })
+}
+
 pub fn case_strategy(max_ops: usize) -> impl Strategy<Value = SysCase> {
-    (1u8..4, proptest::collection::vec(prop_oneof![3 => Just(0u8), 1 => Just(1u8), 1 => Just(2u8)], 3), proptest::collection::vec(op_strategy(), 0..max_ops)).prop_map(|(n_miners, proofs, ops)| SysCase { n_miners, proofs, ops })
+    (1u8..5, proptest::collection::vec(prop_oneof![3 => Just(0u8), 1 => Just(1u8), 1 => Just(2u8)], 4), prop_oneof![2 => Just(0u8), 2 => Just(1u8), 1 => Just(2u8)], proptest::collection::vec(op_strategy(), 0..max_ops)).prop_map(|(n_miners, proofs, min_power, ops)| SysCase { n_miners, proofs, min_power, poor_reward: false, ops })
 }
